@@ -40,7 +40,9 @@ func LowerBound(p *Prog, v ssa.Value) (int64, bool) {
 	return c.lb(v)
 }
 
-func fieldKey(n *types.Named, f string) string { return n.Obj().Pkg().Path() + "." + n.Obj().Name() + "." + f }
+func fieldKey(n *types.Named, f string) string {
+	return n.Obj().Pkg().Path() + "." + n.Obj().Name() + "." + f
+}
 
 func (c *lbCtx) lb(v ssa.Value) (int64, bool) {
 	c.depth++
@@ -268,9 +270,43 @@ func (c *lbCtx) fieldLB(n *types.Named, f string) (int64, bool) {
 	defer delete(c.hyp, key)
 	for _, st := range c.p.StoresToField(n, f) {
 		b, ok := c.lb(st.Val)
-		if !ok || b < 0 {
+		if ok && b >= 0 {
+			continue
+		}
+		// `if v > x.f { x.f = v }`: the stored value exceeds the field's current value, which is >= 0 by hypothesis
+		if !c.storeExceedsField(st, n, f) {
 			return 0, false
 		}
 	}
 	return 0, true
+}
+
+
+// storeExceedsField: the store `x.f = v` executes only on a branch edge implying v >= (the value of
+// x.f loaded in the same function from the same object).
+func (c *lbCtx) storeExceedsField(st *ssa.Store, n *types.Named, f string) bool {
+	fn := st.Parent()
+	_, _, base, ok := fieldOf(st.Addr)
+	if !ok {
+		return false
+	}
+	ve := ToRat(BuildExpr(c.p, st.Val, nil))
+	for _, b := range fn.Blocks {
+		for _, in := range b.Instrs {
+			ld, ok := in.(*ssa.UnOp)
+			if !ok || ld.Op != token.MUL || !isFieldAddr(ld.X, n, f) {
+				continue
+			}
+			if _, _, lb, ok := fieldOf(ld.X); !ok || !sameValue(lb, base) {
+				continue
+			}
+			want := LinCmp{D: ve.Add(ToRat(BuildExpr(c.p, ld, nil)), -1).norm(), Op: ">=", OK: true}
+			for _, e := range edgesImplyingRaw(c.p, fn, want) {
+				if OnlyViaEdge(fn, st, e) {
+					return true
+				}
+			}
+		}
+	}
+	return false
 }
